@@ -2,11 +2,12 @@
   C10 inherits the containers' soundness: a sample block accepted by the multihasher carries the share at the
   coordinates of its CID in the square committed by the stored header at the CID's height.
 
-  `axis_leaf_bound'` is group D's `Proofs/Sample.lean: axis_leaf_bound` restated over the pieces it needs (share bytes,
-  proof), so that this file depends only on the stable lemma files `Proofs/Nmt.lean` and `Proofs/Eds.lean`.
+  The position-binding lemma is group D's `Proofs/Sample.lean: axis_leaf_bound_on` (collision-freeness relative to the
+  hashed inputs); `decodedSample` names the sample the hash hypothesis of `mh_sample_sound` is relative to.
   Owner: group D2.
 -/
 import Lumina.Proofs.Eds
+import Lumina.Proofs.Sample
 import Lumina.Proofs.ShwapHasher
 
 namespace Lumina.Proofs.ShwapSound
@@ -19,45 +20,24 @@ theorem share_ns_length {sh : Share} (h : NS_SIZE ≤ sh.data.length) : sh.ns.le
   · simp [parityNs, maxNsId]
   · simp [List.length_take]; omega
 
-/-- what an accepted single-leaf range proof against an axis root says about the axis' shares -/
-theorem axis_leaf_bound' {H : HashFn} (hk : HashOK H) {e : Eds} {k : Nat} (hw : e.width = 2 ^ k)
-    (hsz : ∀ sh ∈ e.shares, NS_SIZE ≤ sh.data.length) {ax : Axis} {index i : Nat} {root : NsHash}
-    (hroot : e.axisRoot H ax index = .ok root) (hi : i < e.width)
-    {share : Share} {proof : NsProof} (hss : NS_SIZE ≤ share.data.length) (hsib : ∀ p ∈ proof.siblings, p.WF)
-    (hv : verifyRange H proof root [share.data] share.ns = .ok ()) (hst : proof.start = i) :
-    ∃ sh, e.share? (axisCoord ax index i).1 (axisCoord ax index i).2 = some sh ∧ sh.data = share.data := by
-  obtain ⟨shares, hax, hcr, _⟩ := axisRoot_ok hroot
-  obtain ⟨hlen, hget⟩ := axis?_some hax
-  obtain ⟨sh, hsh, hshi⟩ := hget i hi
-  refine ⟨sh, hsh, ?_⟩
-  have hmem : ∀ x ∈ shares, x ∈ e.shares := by
-    intro x hx
-    obtain ⟨n, hn, rfl⟩ := List.getElem_of_mem hx
-    obtain ⟨y, hy1, hy2⟩ := hget n (by omega)
-    rw [List.getElem?_eq_getElem hn] at hy2
-    injection hy2 with hy2
-    rw [hy2]
-    exact List.mem_of_getElem? hy1
-  have al : AllLeaf H (shares.map (Share.leafHash H)) := by
-    intro x hx
-    obtain ⟨y, hy, rfl⟩ := List.mem_map.mp hx
-    exact ⟨y.ns, y.data, share_ns_length (hsz y (hmem y hy)), rfl⟩
-  have lx : IsLeaf H (hashLeaf H share.ns share.data) := ⟨_, _, share_ns_length hss, rfl⟩
-  unfold verifyRange at hv
-  split at hv
-  · cases hv
-  · split at hv
-    · cases hv
-    · simp only [List.map_cons, List.map_nil] at hv
-      rw [hst] at hv
-      have hL : (shares.map (Share.leafHash H)).length = 2 ^ k := by simp [hlen, hw]
-      have hik : i < 2 ^ k := by omega
-      have := checkRangeProof_single_sound hk al hL hcr lx hsib hik hv
-      rw [List.getElem?_map, hshi] at this
-      simp only [Option.map_some, Option.some.injEq, Share.leafHash] at this
-      have hns : sh.ns = share.ns := congrArg NsHash.minNs this
-      have hh : (hashLeaf H sh.ns sh.data).hash = (hashLeaf H share.ns share.data).hash := congrArg NsHash.hash this
-      exact (hashLeaf_inj hk (by rw [hns]) hh).2
+/-- the sample a block carries for the multihasher: identifier from the block's CID, container decoded for it
+    (`none` when one of the decoding steps fails) -/
+def decodedSample (P : Params) (input : Bytes) : Option (SampleId × Lumina.Model.Sample.Sample) :=
+  match P.decodeBlock input with
+  | none => none
+  | some (cidB, cont) =>
+    match Cid.read cidB with
+    | none => none
+    | some cid =>
+      match SampleId.ofCid cid with
+      | .error _ => none
+      | .ok id =>
+        match P.decodeSample cont with
+        | none => none
+        | some raw =>
+          match sampleFromRaw id.row.index id.column raw with
+          | .ok s => some (id, s)
+          | _ => none
 
 theorem ofBytes?_WF {b : Bytes} {h : NsHash} (e : NsHash.ofBytes? b = some h) : h.WF := by
   unfold NsHash.ofBytes? at e
